@@ -651,7 +651,7 @@ class Triangle(Polygon, Simplex):
 
         # TODO: vectorize
 
-        a, b, c, p = np.broadcast_arrays(*self.array, other.array)
+        a, b, c, p = np.broadcast_arrays(*self.normalized_array, other.normalized_array)
 
         lambda1 = det(np.stack([p, b, c], axis=-2))
         lambda2 = det(np.stack([a, p, c], axis=-2))
